@@ -1,11 +1,13 @@
 import Driver.Proto
 import Driver.Hb
+import Driver.Grp
 /-! Model driver: one request per line on stdin, one answer per line on stdout. -/
 open Drv
 
 def dispatch (line : String) : String :=
   match (line.splitOn " ").filter (· ≠ "") with
   | "hb" :: r => Hb.handle r
+  | "grp" :: r => Grp.handle r
   | [] => "bad empty"
   | a :: _ => s!"bad area {a}"
 
